@@ -1,4 +1,5 @@
 import ServlinVerif.Props.C20
+import ServlinVerif.Props.C05
 open Servlin.C20
 #print axioms C20_status_named
 #print axioms C20_model_matches_code
@@ -6,3 +7,4 @@ open Servlin.C20
 #print axioms C20_error_classes
 #print axioms C20_no_leak
 #print axioms C20_oracle_accepts_model
+#print axioms Servlin.C05.C20_5xx_close
